@@ -394,6 +394,20 @@ fn write_data_to_stream<F: Read + Write + Seek>(
     })
 }
 
+/// Overwrites the byte range `[from, to)` of a chain with zeros (does nothing
+/// if the range is empty).
+fn zero_fill<C: Write + Seek>(
+    chain: &mut C,
+    from: u64,
+    to: u64,
+) -> io::Result<()> {
+    if from < to {
+        chain.seek(SeekFrom::Start(from))?;
+        io::copy(&mut io::repeat(0).take(to - from), chain)?;
+    }
+    Ok(())
+}
+
 /// If `new_stream_len` is less than the stream's current length, then the
 /// stream will be truncated.  If it is greater than the stream's current size,
 /// then the stream will be padded with zero bytes.
@@ -416,6 +430,8 @@ fn resize_stream<F: Read + Write + Seek>(
             // into a new mini chain.
             let mut chain = minialloc.open_mini_chain(consts::END_OF_CHAIN)?;
             chain.set_len(new_stream_len)?;
+            // Mini sectors are not cleared when they are allocated.
+            zero_fill(&mut chain, 0, new_stream_len)?;
             chain.start_sector_id()
         } else {
             // Case 1b: The new length is large enough that it should be placed
@@ -437,6 +453,9 @@ fn resize_stream<F: Read + Write + Seek>(
             // existing chain.
             let mut chain = minialloc.open_mini_chain(old_start_sector)?;
             chain.set_len(new_stream_len)?;
+            // Neither the tail of the old last mini sector nor newly
+            // allocated mini sectors are guaranteed to be zero.
+            zero_fill(&mut chain, old_stream_len, new_stream_len)?;
             debug_assert_eq!(chain.start_sector_id(), old_start_sector);
             old_start_sector
         } else {
@@ -477,7 +496,15 @@ fn resize_stream<F: Read + Write + Seek>(
             // existing chain.
             let mut chain =
                 minialloc.open_chain(old_start_sector, SectorInit::Zero)?;
+            let old_chain_len = chain.len();
             chain.set_len(new_stream_len)?;
+            // New sectors are zeroed when allocated, but the tail of the old
+            // last sector may hold data from before an earlier truncation.
+            zero_fill(
+                &mut chain,
+                old_stream_len,
+                new_stream_len.min(old_chain_len),
+            )?;
             debug_assert_eq!(chain.start_sector_id(), old_start_sector);
             old_start_sector
         }
